@@ -10,6 +10,7 @@ from vt.env.blerig import BleRig
 
 class BleH(explore.Harness):
     ALPH = ["req1", "req2", "step", "replay", "future", "corrupt", "cancel", "timer", "drop"]
+    # (req3: a read of ANOTHER characteristic - whose answer cannot be mistaken for req1's - for the attribution oracle, see _check_results)
 
     def __init__(self, p):
         self.p = p
@@ -62,9 +63,12 @@ class BleH(explore.Harness):
         w = self._oldest()
         busy = any(not t.done() for t in self.tasks)
         acc = self.rig.acc
-        for a in self.ALPH:
-            if a in ("req1", "req2"):
+        for a in self.p.get("alphabet", self.ALPH):
+            if a in ("req1", "req2", "req3"):
                 if len([t for t in self.tasks if not t.done()]) < 2:
+                    m.append(a)
+            elif a == "acc-change":
+                if getattr(self, "n_changes", 0) < 2:
                     m.append(a)
             elif a == "step":
                 if w:
@@ -98,7 +102,21 @@ class BleH(explore.Harness):
         self.depth_used += 1
         acc = self.rig.acc
         self._pop_waiting()
-        if label == "req1":
+        self.labels = getattr(self, "labels", [])
+        self.vals = getattr(self, "vals", {9: [acc.chars[9].value], 10: [acc.chars[10].value]})  # every value each characteristic has held, in order
+        if label in ("req1", "req2", "req3"):
+            self.labels.append(label)
+            self.started = getattr(self, "started", []) + [{k: len(v) - 1 for k, v in self.vals.items()}]
+        if label == "acc-change":
+            # the accessory's own state changes (someone pressed the button): a read that STARTS after this can only see the new value
+            self.n_changes = getattr(self, "n_changes", 0) + 1
+            acc.chars[9].value = not acc.chars[9].value
+            acc.chars[10].value = acc.chars[10].value + 1
+            self.vals[9].append(acc.chars[9].value)
+            self.vals[10].append(acc.chars[10].value)
+        if label == "req3":
+            self.tasks.append(self.loop.create_task(self.rig.pairing.get_characteristics([(1, 10)])))
+        elif label == "req1":
             self.tasks.append(self.loop.create_task(self.rig.pairing.get_characteristics([(1, 9)])))
         elif label == "req2":
             self.tasks.append(self.loop.create_task(self.rig.pairing.put_characteristics([(1, 9, True), (1, 10, 5)])))
@@ -131,7 +149,25 @@ class BleH(explore.Harness):
         self._index()
         self._check()
 
+    def _check_results(self):
+        """C17's clause on this harness: whatever was cancelled, timed out or dropped before, a read that completes carries the value of the
+        characteristic it asked for (iid 9: a bool, False until a write of True was accepted; iid 10: 50 until a write of 5) - never the answer
+        to another request."""
+        wrote = any(lb == "req2" for lb in getattr(self, "labels", []))
+        for k, (lb, t) in enumerate(zip(getattr(self, "labels", []), self.tasks)):
+            if lb == "req2" or not t.done() or t.cancelled() or t.exception() is not None or k in getattr(self, "judged", set()):
+                continue
+            self.judged = getattr(self, "judged", set()) | {k}
+            res = t.result()
+            want_key = (1, 9) if lb == "req1" else (1, 10)
+            vals = getattr(self, "vals", {9: [False], 10: [50]})[want_key[1]]
+            ok_vals = list(vals[self.started[k][want_key[1]]:]) + (([True] if lb == "req1" else [5]) if wrote else [])  # what the characteristic held from the start of this read on
+            got = res.get(want_key, {}).get("value", "absent") if isinstance(res, dict) else "not-a-dict"
+            if set(res) - {want_key} or (got != "absent" and not any(got == v and type(got) is type(v) for v in ok_vals)):
+                self.viol.append(("c17:ble:read-completed-with-the-answer-to-another-request", {"request": lb, "result": {str(a): b for a, b in res.items()}, "admissible": ok_vals}))
+
     def _check(self):
+        self._check_results()
         r = self.log.nonce_reuse()
         if r:
             self.viol.append(("ble:nonce-reused-under-one-key", {"nonce": r["nonce"]}))
